@@ -34,6 +34,14 @@ def main(tier, rep):
                     steps = [("call", "set", False, None, "all"), ("call", iop, None, None, L.SEGS[(i + fi) % 3]), ("tick", 1)]
                     steps += [("call", f[0], f[1], None, L.SEGS[(i + fi + 1) % 3]) for f in fu if L.has_op(kind, f[0])]
                     progs.append((L.Cfg(kind=kind, ignore_exc=ign), steps))
+    # the same keyless / read operation several times on one connection: each call asks the server itself
+    for kind in L.KINDS:
+        for dn in (True, False):
+            for ops in (("version", "version", "stats", "version"), ("stats", "get", "stats", "get", "get_many", "get_many"),
+                        ("gets", "gets", "incr", "incr", "touch", "touch"), ("flush_all", "flush_all", "get", "get")):
+                steps = [("call", "set", False, None, "all")]
+                steps += [("call", o, None, None, L.SEGS[i % 3]) for i, o in enumerate(ops) if L.has_op(kind, o)]
+                progs.append((L.Cfg(kind=kind, default_noreply=dn), steps))
     traces = [L.run_program(cfg, steps) for cfg, steps in progs]
     L.validate(rep, traces, relevant, PROP)
     # code -> spec on executions the harness did not design: the repository's own integration tests
